@@ -825,7 +825,10 @@ fn main() {
                 if let RunResult::Done(o) = run(&p, &c, Target::Buffer, &scratch) {
                     // MaxTime, or the run really did finish within the limit by this harness's clock
                     let finished_in_time = o.setup_s + o.wall_s <= c.time_limit;
-                    let ok = o.status == 8 || finished_in_time || full.status != 1;
+                    // the limit check fired (MaxTime at an iteration boundary); post-processing may then
+                    // turn MaxTime into an Almost* status when the reduced tolerances are already met
+                    let limit_hit = o.events.iter().any(|e| matches!(e, Event::PreLimit { status: 8, .. }));
+                    let ok = o.status == 8 || (limit_hit && matches!(o.status, 4 | 5 | 6)) || finished_in_time || full.status != 1;
                     sink.record(json!({"direct": {"prop": "C04", "ok": ok, "what": format!("a solve that runs past time_limit stops with MaxTime (verbose = {})", verbose),
                         "input": {"label": p.label, "settings": c.json(), "unlimited_setup_s": full.setup_s, "unlimited_solve_s": full.wall_s, "unlimited_iterations": full.iterations,
                                   "status": o.status, "iterations": o.iterations, "this_run_total_s": o.setup_s + o.wall_s}}}));
@@ -850,6 +853,27 @@ fn main() {
             let ok = matches!(r, RunResult::ConstructPanic);
             sink.record(json!({"direct": {"prop": "C04", "ok": ok, "what": format!("inconsistent dimensions ({}) rejected at construction", what), "input": {"case": what}}}));
             bump(&mut stats, "dimension_rejects");
+        }
+        // random shapes, mostly consistent, each kind of mismatch with small probability: the
+        // constructor must panic exactly when the Coq model of _check_dimensions says so
+        let nd = if thorough { 600 } else { 120 };
+        for _ in 0..nd {
+            let n = 1 + rng.below(4);
+            let ncones = rng.below(4);
+            let cones: Vec<SupportedConeT<f64>> = (0..ncones).map(|_| random_cone(&mut rng, &[0, 1, 1, 2, 3])).collect();
+            let m: usize = cones.iter().map(cone_dim).sum();
+            let mut jig = |v: usize, rng: &mut Rng| -> usize { if rng.chance(1, 9) { if rng.chance(1, 2) { v + 1 + rng.below(2) } else { v.saturating_sub(1 + rng.below(2)) } } else { v } };
+            let (pm, pn, qn, am, an, bn) = (jig(n, &mut rng), jig(n, &mut rng), jig(n, &mut rng), jig(m, &mut rng), jig(n, &mut rng), jig(m, &mut rng));
+            let P = CscMatrix::<f64>::zeros((pm, pn));
+            let A = CscMatrix::<f64>::zeros((am, an));
+            let q = vec![1.0; qn];
+            let b = vec![1.0; bn];
+            let cs = cones.clone();
+            let panicked = guarded(move || { let _ = DefaultSolver::new(&P, &q, &A, &b, &cs, DefaultSettings { verbose: false, ..DefaultSettings::default() }); }).is_none();
+            let cd: Vec<String> = cones.iter().map(|c| cn(cone_dim(c))).collect();
+            sink.case("dims", json!({"label": "constructor shapes", "P": [pm, pn], "q": qn, "A": [am, an], "b": bn, "cones": cones.iter().map(cone_name).collect::<Vec<_>>(), "panicked": panicked}),
+                format!("(c_dims {} {} {} {} {} {} [{}] {})", cn(pm), cn(pn), cn(qn), cn(am), cn(an), cn(bn), cd.join("; "), cb(panicked)),
+                &["C04"]);
         }
     }
 
